@@ -87,7 +87,7 @@ UNIT = {
  # the Verus units of C04 (serial_leaf, primser) cannot read; a failure is a violation with the concrete failing input.
  'native': {'tests': [
     {'name': 'roundtrip_small_values', 'code': 'native_roundtrip.rs', 'place': 'pdf/tests/verif_primser_roundtrip.rs',
-     'fn': 'Primitive::serialize', 'props': ['C04'], 'tier': 'quick', 'timeout': 900,
+     'fn': 'Primitive::serialize', 'props': ['C04', 'C09', 'C10'], 'tier': 'quick', 'timeout': 900,
      'bound': 'strings: all 65 793 byte strings of length <= 2 (+ all 65 536 two-byte strings inside a..z, every byte at start/middle/end of a '
               'literal-form and of a hexadecimal-form string, 16 picked); names: all 18 433 names of <= 2 UTF-8 bytes (non-UTF-8 byte strings '
               'cannot be held by Name/SmallString: skipped), every ASCII byte and 6 non-ASCII scalar values inside A?B, as value, array element '
